@@ -109,10 +109,26 @@ class ParDirector(Process):
         return upd
 
 
+_OIDS = {}
+
+
+def worker_name(name, oid):
+    """The name of a worker in the records: the process name (without the run
+    prefix); copies of a process (the daughters of a division by key) carry the
+    name of the original and are told apart by the identity of their object."""
+    base = name.split('_', 1)[1]
+    if oid is None:
+        return base
+    if oid not in _OIDS:
+        n = sum(1 for (b, _k) in _OIDS.values() if b == base)
+        _OIDS[oid] = (base, base if n == 0 else '%s#%d' % (base, n + 1))
+    return _OIDS[oid][1]
+
+
 def find_parallel(eng, known):
     for path, node in eng.state.depth():
         if isinstance(node.value, ParallelProcess):
-            known[node.value.name.split('_', 1)[1]] = node.value
+            known[worker_name(node.value.name, id(node.value))] = node.value
 
 
 def alive(known):
@@ -135,7 +151,7 @@ def drain_hooks(recs):
         # events of objects of earlier runs (garbage collection) are not ours
         if not str(f.get('name', '')).startswith(prefix):
             continue
-        f = dict(f, name=f['name'][len(prefix):])
+        f = dict(f, name=worker_name(f['name'], f.get('oid')))
         if ev == 'send':
             recs.append({'ev': 'send', 'w': f['name'], 'c': f['command']})
         elif ev == 'recv':
@@ -157,6 +173,7 @@ def run_protocol(sc):
     assert verif_hooks.ENABLED, 'VIVARIUM_CORE_VERIF=1 must be set before importing vivarium'
     gc.collect()
     _RUN[0] += 1
+    _OIDS.clear()
     verif_hooks.reset()
     recs, known = [], {}
     script = {}
@@ -169,6 +186,11 @@ def run_protocol(sc):
             script[tick] = {'agents': {'_move': [{'source': (op[1],), 'target': 'pool'}]}}
         elif op[0] == 'div':
             ds = []
+            if len(op) > 5 and op[5] == 'keyonly':
+                # daughters named by key only: copies of the mother's processes
+                script[tick] = {'agents': {'_divide': {'mother': op[1], 'daughters': [
+                    {'key': op[2]}, {'key': op[3]}]}}}
+                continue
             for d in (op[2], op[3]):
                 t = comp(d, op[4])
                 t['key'] = d
@@ -308,6 +330,14 @@ def protocol_scenarios(tier):
                         'ticks': 8, 'finish': finish, 'long': True})
     for finish in (['end'], ['end', 'end'], ['gc'], []):
         out.append({'comps': [('a', 1), ('b', 2)], 'ops': {}, 'ticks': 2, 'finish': finish})
+    # daughters named by key only (copies of the mother's - parallel - process),
+    # the mother idle or with an update in flight
+    keyonly = []
+    for ts, long_ in ((1, False), (3, False), (3, True)):
+        for op_tick in (0, 1):
+            keyonly.append({'comps': [('a', ts), ('b', 1)],
+                            'ops': {op_tick: ('div', 'a', 'c', 'd', ts, 'keyonly')},
+                            'ticks': 8 if long_ else 3, 'finish': ['end'], 'long': long_})
     # the process that is deleted / divided away reports an empty update
     for op_tick, long_ in ((0, False), (1, False), (0, True), (1, True)):
         out.append({'comps': [('a', (3 if long_ else 1, 'empty')), ('b', 2)],
@@ -324,5 +354,6 @@ def protocol_scenarios(tier):
     out.append({'comps': [('a', 2)], 'ops': {0: ('gen', 'g', 3), 2: ('del', 'g')}, 'ticks': 4,
                 'finish': ['end']})
     if tier == 'quick':
-        return out[::2] + [out[1]] + [o for o in out[1::2] if isinstance(o['comps'][0][1], tuple)]
-    return out
+        return out[::2] + [out[1]] + [o for o in out[1::2] if isinstance(o['comps'][0][1], tuple)] \
+            + keyonly[::2] + keyonly[-1:]
+    return out + keyonly
